@@ -3,6 +3,7 @@ import SJ.Proofs.ScanLex
 import SJ.Proofs.Rounds
 import SJ.Proofs.DecodeSound
 import SJ.Proofs.Bridge
+import SJ.Proofs.Framing
 /-
 Assembly: every successful `Parse` / `ParseND` of the model returns a tape that holds a located document
 (the ghost built alongside stage 2): the documented format (C17), tight, and — in copy mode — with every string
@@ -29,8 +30,9 @@ theorem filter_range_pairwise (n : Nat) (f : Nat → Bool) : ((List.range n).fil
 /-- What a successful run of the two stages on a (trimmed) message gives. -/
 theorem parseMsg_wf (cfg : Cfg) (nd : Bool) (msg : Bytes) (m : M) (hsz : SizeOK msg)
     (h : parseMsg cfg nd msg = some m) :
-    ∃ lvs : List LVal, WalkLayout.OkRoots (pjOf m msg) lvs 0 ∧ (∀ v ∈ lvs, WalkLayout.Tight v) ∧
-      (cfg.copyStrings = true → ∀ v ∈ lvs, CopyIndep.Copied (pjOf m msg) v) := by
+    (∃ lvs : List LVal, WalkLayout.OkRoots (pjOf m msg) lvs 0 ∧ (∀ v ∈ lvs, WalkLayout.Tight v) ∧
+      (cfg.copyStrings = true → ∀ v ∈ lvs, CopyIndep.Copied (pjOf m msg) v)) ∧
+    m.tape.size ≤ 3 * msg.size + 2 ∧ m.strings.size ≤ msg.size := by
   unfold parseMsg at h
   cases hs1 : stage1 nd msg with
   | none => rw [hs1] at h; cases h
@@ -63,8 +65,12 @@ theorem parseMsg_wf (cfg : Cfg) (nd : Bool) (msg : Bytes) (m : M) (hsz : SizeOK 
         intro e
         rw [e] at hlen
         exact hne (List.eq_nil_of_length_eq_zero hlen.symm)
-      exact ⟨g.roots, Stage2WF.stage2_wf_peekOK cfg msg (indices nd msg) _ m' m g hsz hL hnel hpk
-        (filter_range_pairwise _ _) hg h⟩
+      have hsizes := Stage2WF.stage2_sizes_peekOK cfg msg (indices nd msg) _ m' m g hsz hL hnel hpk
+        (filter_range_pairwise _ _) hg h
+      refine ⟨⟨g.roots, Stage2WF.stage2_wf_peekOK cfg msg (indices nd msg) _ m' m g hsz hL hnel hpk
+        (filter_range_pairwise _ _) hg h⟩, ?_, hsizes.2⟩
+      have := hsizes.1
+      omega
 
 /-- **Every successful parse returns a well-formed tape holding a located document** (C17, C16, C02). -/
 theorem parse_wf (cfg : Cfg) (nd : Bool) (input : Bytes) (pj : PJ) (hsz : SizeOK (trimSpace input))
@@ -73,7 +79,7 @@ theorem parse_wf (cfg : Cfg) (nd : Bool) (input : Bytes) (pj : PJ) (hsz : SizeOK
       (cfg.copyStrings = true → ∀ v ∈ lvs, CopyIndep.Copied pj v) ∧
       WF pj (lvs.map erase) ∧ wfCheckD pj = true ∧
       (∃ ds, owalk pj = .ok ds ∧ decodeTapeD pj = some ds ∧ ds = (lvs.map erase).map DecodeSound.toOVal) ∧
-      pj.msg = trimSpace input := by
+      pj.msg = trimSpace input ∧ pj.tape.size ≤ 3 * (trimSpace input).size + 2 ∧ pj.strings.size ≤ (trimSpace input).size := by
   rw [parseAny_eq] at h
   cases hp : parseMsg cfg nd (trimSpace input) with
   | none => rw [hp] at h; cases h
@@ -81,9 +87,9 @@ theorem parse_wf (cfg : Cfg) (nd : Bool) (input : Bytes) (pj : PJ) (hsz : SizeOK
     rw [hp] at h
     simp only [Res.ok.injEq] at h
     subst h
-    obtain ⟨lvs, h1, h2, h3⟩ := parseMsg_wf cfg nd (trimSpace input) m hsz hp
+    obtain ⟨⟨lvs, h1, h2, h3⟩, hs1, hs2⟩ := parseMsg_wf cfg nd (trimSpace input) m hsz hp
     obtain ⟨ds, hw, hd, hwf, hds⟩ := Bridge.owalk_eq_decode _ lvs h1 h2
-    refine ⟨lvs, h1, h2, h3, hwf, ?_, ⟨ds, hw, hd, hds⟩, rfl⟩
+    refine ⟨lvs, h1, h2, h3, hwf, ?_, ⟨ds, hw, hd, hds⟩, rfl, hs1, hs2⟩
     exact (DecodeSound.wfCheckD_iff _).mpr ⟨_, hwf⟩
 
 /-- **Copy mode: nothing observable depends on the input buffer after the call returns** (C16): for every later
@@ -93,5 +99,27 @@ theorem parse_copy_indep (nd : Bool) (input : Bytes) (pj : PJ) (hsz : SizeOK (tr
     owalk (CopyIndep.withMsg pj scribble) = owalk pj := by
   obtain ⟨lvs, h1, h2, h3, _⟩ := parse_wf _ nd input pj hsz h
   exact CopyIndep.owalk_msg_indep pj lvs h1 h2 (h3 rfl) scribble
+
+/-- **Serialize/Deserialize round-trips every parse result** (C11 ∘ C17): for every accepted input up to 64 MiB (the
+    bound under which the serializer's 55-bit string offsets cannot overflow for any tape), every hash function, codec
+    and prior destination content, the uncompressed serialization of the parse result deserializes to a tape denoting
+    the same document. -/
+theorem parse_serde_roundtrip (cfg : Cfg) (nd : Bool) (input : Bytes) (pj : PJ) (hsz : (trimSpace input).size < 2^26)
+    (h : parseAny cfg nd input = .ok pj) (hash : Bytes → Nat) (codec : Codec) (prior : Array UInt64) :
+    ∃ d sec pj', WF pj d ∧ serialize pj hash = .ok sec ∧
+      deserialize codec (encodeSections blkRaw sec) prior = .ok pj' ∧ WF pj' d := by
+  have hsz' : SizeOK (trimSpace input) := by unfold SizeOK; omega
+  obtain ⟨lvs, _, _, _, hwf, _, _, hmsg, ht, hs⟩ := parse_wf cfg nd input pj hsz' h
+  have hmax : max pj.msg.size pj.strings.size ≤ (trimSpace input).size := by
+    rw [hmsg]; exact Nat.max_le.mpr ⟨Nat.le_refl _, hs⟩
+  have hb : pj.tape.size * max pj.msg.size pj.strings.size < 2^55 := by
+    have h1 : pj.tape.size * max pj.msg.size pj.strings.size ≤ (3 * (trimSpace input).size + 2) * (trimSpace input).size :=
+      Nat.mul_le_mul ht hmax
+    have h2 : (3 * (trimSpace input).size + 2) * (trimSpace input).size ≤ (3 * 2^26 + 2) * 2^26 :=
+      Nat.mul_le_mul (by omega) (by omega)
+    have h3 : (3 * 2^26 + 2) * 2^26 < 2^55 := by decide
+    omega
+  obtain ⟨sec, pj', a, b, c⟩ := Framing.serialize_deserialize codec pj _ hash hwf (by omega) hb prior
+  exact ⟨_, sec, pj', hwf, a, b, c⟩
 
 end SJ.ParseWF
